@@ -75,6 +75,9 @@ func genPassthrough(r *rand.Rand, i int) J {
 			if r.Intn(10) == 0 {
 				t = plainText(r, 2000+r.Intn(3000))
 			}
+			if k == 0 && r.Intn(3) == 0 {
+				t = pick(r, edgeSpecials) + t // (at the very start of the source)
+			}
 			prog = append(prog, nText(t))
 			lastText = true
 			continue
@@ -142,12 +145,22 @@ func genScanBytes(r *rand.Rand, i int) J {
 	default:
 		src = strings.Repeat(pick(r, []string{"{{", "{% ", "a\n", "{{x}}\n", "}}"}), 1+r.Intn(40))
 	}
+	// what a careless reader would strip or normalise at the edges of a source: byte order mark, zero-width and
+	// no-break spaces, line and paragraph separators, CR, NUL, a "#!" line
+	if r.Intn(4) == 0 {
+		src = pick(r, edgeSpecials) + src
+	}
+	if r.Intn(6) == 0 {
+		src += pick(r, edgeSpecials)
+	}
 	c := J{"kind": "scan", "src": bs(src)}
 	if r.Intn(3) == 0 {
 		c["line0"] = r.Intn(50)
 	}
 	return c
 }
+
+var edgeSpecials = []string{"\ufeff", "\ufeff\ufeff", "\u200b", "\u00a0", "\u2028", "\u2029", "\r", "\r\n", "\x00", "#!liquid\n", "\ufffe", "\xef\xbb", "\xff\xfe", "\t", "\v\f"}
 
 func init() {
 	generators["passthrough"] = genPassthrough
